@@ -636,6 +636,9 @@ func (x *FnExec) typeAssert(in *ssa.TypeAssert, st *State) {
 func (x *FnExec) indexAddr(in *ssa.IndexAddr, st *State) {
 	base := x.value(in.X)
 	idx := x.value(in.Index).T
+	if _, isNum := isNumeral(idx); !isNum {
+		x.addIdxTerm(idx)
+	}
 	switch u := in.X.Type().Underlying().(type) {
 	case *types.Slice:
 		sz := x.mem.Size(u.Elem())
